@@ -145,6 +145,34 @@ def _all_srcs(fi, expr, pred, known=()):
     return ok
 
 
+def _argn(fi, call, name, pos):
+    """astutil.argn, looking through ``f(.., **options)`` when ``options`` is a local bound once to a dict display with
+    constant keys and used nowhere else (so nothing can have changed it): the value stored under ``name``.  A ``*`` /
+    ``**`` argument that cannot be looked through may or may not supply the parameter: analysis error."""
+    v = argn(call, name, pos)
+    if v is not None:
+        return v
+    for k in call.keywords:
+        if k.arg is not None:
+            continue
+        d = k.value
+        if isinstance(d, ast.Name) and d.id in _locals_of(fi) and d.id not in fi.params():
+            ds = assigned_value(fi.node, d.id)
+            uses = [n for n in ast.walk(fi.node) if isinstance(n, ast.Name) and n.id == d.id and isinstance(n.ctx, ast.Load)]
+            if len(ds) == 1 and ds[0][2] is None and isinstance(ds[0][1], ast.Dict) and len(uses) == 1:
+                d = ds[0][1]
+        if isinstance(d, ast.Dict) and all(isinstance(x, ast.Constant) and isinstance(x.value, str) for x in d.keys):
+            for x, val in zip(d.keys, d.values):
+                if x.value == name:
+                    return val
+            continue
+        raise AnalysisError('%s: call %s passes **%s, which is not followed (argument %s)' % (fi.qualname, short(call), short(k.value), name))
+    if any(isinstance(a, ast.Starred) for a in call.args[:(pos + 1 if pos is not None else 0)]):
+        raise AnalysisError('%s: call %s passes positional arguments with *, which is not followed (argument %s)'
+                            % (fi.qualname, short(call), name))
+    return None
+
+
 def _unbool(cs):
     """``bool(e)`` known true / false says the same about ``e`` (``flag = bool(a and b)``)."""
     out = list(cs)
@@ -573,7 +601,7 @@ def _r14a(rep):
         for fi in m.functions.values():
             for c in walk_body(fi.node):
                 if isinstance(c, ast.Call) and call_tail(c) == 'find_file':
-                    lr = argn(c, 'limit_root', 2)
+                    lr = _argn(fi, c, 'limit_root', 2)
                     ok = lr is None or (isinstance(lr, ast.Constant) and lr.value is True)
                     rep.check('R14.a', fkey(fi, 'find_file call'), ok, 'caller keeps limit_root on' if ok else
                               'caller passes limit_root=%s' % short(lr), m, c)
@@ -763,8 +791,18 @@ def _r14e(rep):
     rep.check('R14.e', fkey(gfr, "'/'.join(path)"), bool(joined), "multi-segment path values are joined with '/'" if joined else
               "path segments are not joined with '/'", st, gfr.node)
     # what is looked up is the bound ``path`` value: the parameter itself or its segments joined with '/'
+    def path_value(e):
+        # the parameter, or '/'.join(<a name that only ever holds the parameter or this very join of itself>)
+        if _is_param(e, 'path'):
+            return True
+        if not (slash_join(e) and len(e.args) == 1 and not e.keywords and isinstance(e.args[0], ast.Name)):
+            return False
+        a = e.args[0]
+        return all(isinstance(x, ast.expr) and (_is_param(x, 'path') or (slash_join(x) and len(x.args) == 1 and not x.keywords
+                                                                         and norm(x.args[0]) == a.id))
+                   for x in _srcs(gfr, a))
     ok = 'path' in gfr.params() and len(ffc.args) >= 2 and norm(ffc.args[0]) == 'self.search_paths' and \
-        _all_srcs(gfr, ffc.args[1], lambda e: _is_param(e, 'path') or (slash_join(e) and len(e.args) == 1 and norm(e.args[0]) == 'path'))
+        _all_srcs(gfr, ffc.args[1], path_value)
     rep.check('R14.e', fkey(gfr, 'find_file args'), ok, 'find_file(self.search_paths, path)' if ok else
               'find_file is not called with (self.search_paths, path)', st, ffc)
     # the found path is what is served
@@ -773,7 +811,7 @@ def _r14e(rep):
     rep.check('R14.e', fkey(gfr, 'serves found path'), ok, 'the path returned by find_file is the one served' if ok else
               'build_file_response is not given the path found by find_file', st, bc[0] if bc else gfr.node)
     ok = bool(bc) and 'request' in gfr.params() and not assigned_value(gfr.node, 'request') and \
-        all(_all_srcs(gfr, argn(c, 'cached_modify_time', 2), lambda e: norm(e) == 'request.if_modified_since') for c in bc)
+        all(_all_srcs(gfr, _argn(gfr, c, 'cached_modify_time', 2), lambda e: norm(e) == 'request.if_modified_since') for c in bc)
     rep.check('R14.e', fkey(gfr, 'if_modified_since'), ok, 'conditional requests use request.if_modified_since' if ok else
               'cached_modify_time is not request.if_modified_since', st, bc[0] if bc else gfr.node)
 
